@@ -56,6 +56,9 @@ STR_ALPHA = "abcdefghijklmnopqrstuvwxyzABCDEFGHIJKLMNOPQRSTUVWXYZ0123456789 _-.,
 def gen_value(rng, t, tag=""):
     if t == ex.T_STRING:
         n = rng.choice([0, 0, 1, 5, 20, 200]) if rng.random() < 0.97 else 5000
+        if rng.random() < 0.1:
+            # ASCII also has control characters (the game's own markup brackets payloads with STX .. ETX); a cell is returned as stored
+            return tag + "".join(rng.choice(STR_ALPHA + "\x01\x02\x02\x03\x03\x07\t\n\r\x1b\x7f") for _ in range(max(n, 6)))
         return tag + "".join(rng.choice(STR_ALPHA) for _ in range(n))
     if t == ex.T_BOOL or t >= 0x19:
         return rng.random() < 0.5
